@@ -16,9 +16,24 @@
  *   share                               make the peer inode reference the target's xattr block (h_refcount + 1,
  *                                       i_file_acl, i_blocks of the peer) -- the state the kernel's mbcache produces
  *   reopen                              ext2fs_close + ext2fs_open
+ * Operations of OTHER subsystems that rewrite the attribute area of the same inode (inline data).  A persistent
+ * handle is dropped first: no in-tree caller keeps an xattr handle open across them.
+ *   write <len> <tag>                   ext2fs_file_open(WRITE) + ext2fs_file_write(len bytes at offset 0) + ext2fs_file_close
+ *   trunc <len>                         ext2fs_file_open(WRITE) + ext2fs_file_set_size2(len) + ext2fs_file_close
+ *   iset <len> <tag>                    ext2fs_inline_data_set(fs, ino, NULL, buf, len)   (only if the inode has
+ *                                       EXT4_INLINE_DATA_FL, else the line is {"e":"skip","ret":5}; the same holds
+ *                                       for `set system.data`)
+ *   iexp                                ext2fs_inline_data_expand(fs, ino)
+ *   punch                               ext2fs_punch(fs, ino, NULL, NULL, 0, ~0ULL)
+ *   mkdirin <namelen>                   ext2fs_mkdir(fs, ino, 0, <fresh name of that length>); on EXT2_ET_DIR_NO_SPACE
+ *                                       ext2fs_expand_dir + retry (misc/create_inode.c do_mkdir_internal)
+ * File bytes: offset j < 60 -> pattern(tag)[j], j >= 60 -> pattern(tag)[j - 60] (the part kept in system.data is
+ * the pattern from its own offset 0).
  *   close                               ext2fs_close
- * Output fields: e, ret (0 ok, 1 EXT2_ET_EA_NO_SPACE, 2 any other error + "err"), gets = [[len, "fnv1a hex"] ...] read
- * through a FRESH handle (len -1: key not found, -2: error), pgets = same through the persistent handle ([] if none),
+ * Output fields: e, ret (0 ok, 1 EXT2_ET_EA_NO_SPACE, 3 EXT2_ET_NO_INLINE_DATA, 4 EXT2_ET_INLINE_DATA_NO_SPACE, 5 skipped,
+ * 2 any other error + "err"), gets = [[len, "fnv1a hex", nz] ...] read through a FRESH handle (len -1: key not found,
+ * -2: error; nz = number of leading non-zero bytes, -1 if a non-zero byte follows a zero byte), ilen =
+ * ext2fs_inline_data_size (-1: EXT2_ET_NO_INLINE_DATA, -2: other error), pgets = same through the persistent handle ([] if none),
  * peer = gets on the peer inode, cnt = ext2fs_xattrs_count, fb / fi = free blocks / inodes in the superblock, ino.
  */
 #include <stdio.h>
@@ -42,7 +57,23 @@ static void fill(unsigned char *buf, size_t len, int tag)
 {
 	size_t i;
 	for (i = 0; i < len; i++)
-		buf[i] = (unsigned char)(tag * 37 + i * 7 + (i >> 8) * 13 + 1);
+		buf[i] = (unsigned char)(1 + (tag * 37 + i * 7 + (i >> 8) * 13) % 251);	/* never 0; tags differ everywhere */
+}
+
+static void fill_file(unsigned char *buf, size_t len, int tag)
+{
+	fill(buf, len < 60 ? len : 60, tag);
+	if (len > 60)
+		fill(buf + 60, len - 60, tag);
+}
+
+static long nzprefix(const unsigned char *p, size_t n)
+{
+	size_t k = 0, i;
+	while (k < n && p[k]) k++;
+	for (i = k; i < n; i++)
+		if (p[i]) return -1;
+	return (long) k;
 }
 
 static unsigned fnv(const unsigned char *p, size_t n)
@@ -56,6 +87,8 @@ static int code(errcode_t e)
 {
 	if (e == 0) return 0;
 	if (e == EXT2_ET_EA_NO_SPACE) return 1;
+	if (e == EXT2_ET_NO_INLINE_DATA) return 3;
+	if (e == EXT2_ET_INLINE_DATA_NO_SPACE) return 4;
 	return 2;
 }
 
@@ -79,9 +112,9 @@ static void print_gets_h(struct ext2_xattr_handle *h)
 		void *v = NULL; size_t l = 0;
 		errcode_t r = ext2fs_xattr_get(h, names[i], &v, &l);
 		if (i) printf(",");
-		if (r == EXT2_ET_EA_KEY_NOT_FOUND) printf("[-1,\"\"]");
-		else if (r) printf("[-2,\"%ld\"]", (long) r);
-		else { printf("[%lu,\"%08x\"]", (unsigned long) l, fnv(v, l)); ext2fs_free_mem(&v); }
+		if (r == EXT2_ET_EA_KEY_NOT_FOUND) printf("[-1,\"\",0]");
+		else if (r) printf("[-2,\"%ld\",0]", (long) r);
+		else { printf("[%lu,\"%08x\",%ld]", (unsigned long) l, fnv(v, l), nzprefix(v, l)); ext2fs_free_mem(&v); }
 	}
 	printf("]");
 }
@@ -93,7 +126,7 @@ static void print_gets(const char *key, ext2_ino_t i, long *cnt)
 	printf(",\"%s\":", key);
 	if (!i) { printf("[]"); return; }
 	r = new_handle(i, &h);
-	if (r) { printf("[[-2,\"read %ld\"]]", (long) r); if (cnt) *cnt = -1; return; }
+	if (r) { printf("[[-2,\"read %ld\",0]]", (long) r); if (cnt) *cnt = -1; return; }
 	if (cnt) { size_t c = 0; ext2fs_xattrs_count(h, &c); *cnt = (long) c; }
 	print_gets_h(h);
 	ext2fs_xattrs_close(&h);
@@ -104,7 +137,7 @@ static void finish_line(const char *e, errcode_t ret)
 	long cnt = 0;
 	errcode_t fr = 0;
 	if (fs) fr = ext2fs_flush(fs);
-	printf("{\"e\":\"%s\",\"ret\":%d", e, code(ret));
+	printf("{\"e\":\"%s\",\"ret\":%d", e, strcmp(e, "skip") ? code(ret) : 5);
 	if (ret) printf(",\"err\":\"%s\"", error_message(ret));
 	if (fr) printf(",\"flusherr\":\"%s\"", error_message(fr));
 	if (fs) {
@@ -112,6 +145,11 @@ static void finish_line(const char *e, errcode_t ret)
 		printf(",\"pgets\":");
 		if (ph) print_gets_h(ph); else printf("[]");
 		print_gets("peer", peer, NULL);
+		{
+			size_t isz = 0;
+			errcode_t ir = ext2fs_inline_data_size(fs, ino, &isz);
+			printf(",\"ilen\":%ld", ir == 0 ? (long) isz : ir == EXT2_ET_NO_INLINE_DATA ? -1L : -2L);
+		}
 		printf(",\"cnt\":%ld,\"fb\":%llu,\"fi\":%u,\"ino\":%u,\"peerino\":%u", cnt,
 		       (unsigned long long) ext2fs_free_blocks_count(fs->super), fs->super->s_free_inodes_count, ino, peer);
 	}
@@ -177,6 +215,59 @@ static errcode_t do_share(void)
 	return ext2fs_write_inode_full(fs, peer, EXT2_INODE(&b), sizeof(b));
 }
 
+static int is_inline(void)
+{
+	struct ext2_inode in;
+	if (ext2fs_read_inode(fs, ino, &in)) return 0;
+	return (in.i_flags & EXT4_INLINE_DATA_FL) != 0;
+}
+
+static errcode_t do_write(size_t len, int tag)
+{
+	ext2_file_t f;
+	unsigned int w = 0;
+	unsigned char *buf = malloc(len + 1);
+	errcode_t r, r2;
+	fill_file(buf, len, tag);
+	r = ext2fs_file_open(fs, ino, EXT2_FILE_WRITE, &f);
+	if (r) { free(buf); return r; }
+	r = ext2fs_file_write(f, buf, len, &w);
+	if (!r && w != len) r = EIO;
+	r2 = ext2fs_file_close(f);
+	free(buf);
+	return r ? r : r2;
+}
+
+static errcode_t do_trunc(unsigned long len)
+{
+	ext2_file_t f;
+	errcode_t r, r2;
+	r = ext2fs_file_open(fs, ino, EXT2_FILE_WRITE, &f);
+	if (r) return r;
+	r = ext2fs_file_set_size2(f, len);
+	r2 = ext2fs_file_close(f);
+	return r ? r : r2;
+}
+
+static int subno;
+static errcode_t do_mkdirin(int nl)
+{
+	char name[300];
+	errcode_t r;
+	int k;
+	if (nl < 3 || nl > 255) return EINVAL;
+	k = snprintf(name, sizeof(name), "n%02d", subno++ % 100);
+	while (k < nl) name[k++] = 'x';
+	name[nl] = 0;
+	r = ext2fs_mkdir(fs, ino, 0, name);
+	if (r == EXT2_ET_DIR_NO_SPACE) {
+		r = ext2fs_expand_dir(fs, ino);
+		if (r) return r;
+		r = ext2fs_mkdir(fs, ino, 0, name);
+	}
+	return r;
+}
+
 int main(void)
 {
 	char line[4096], *tok[MAXN + 4];
@@ -195,6 +286,7 @@ int main(void)
 			if (fs) { ext2fs_close(fs); fs = NULL; }
 			snprintf(image, sizeof(image), "%s", tok[1]);
 			ino = peer = 0;
+			subno = 0;
 			r = do_open();
 			if (!r) r = ext2fs_namei(fs, EXT2_ROOT_INO, EXT2_ROOT_INO, tok[2], &ino);
 			if (!r && nt >= 4) r = ext2fs_namei(fs, EXT2_ROOT_INO, EXT2_ROOT_INO, tok[3], &peer);
@@ -216,7 +308,9 @@ int main(void)
 		} else if (!strcmp(tok[0], "set") && nt == 4) {
 			struct ext2_xattr_handle *h = NULL;
 			size_t len = strtoul(tok[2], NULL, 10);
-			unsigned char *buf = malloc(len + 1);
+			unsigned char *buf;
+			if (!strcmp(tok[1], "system.data") && !is_inline()) { finish_line("skip", 0); continue; }
+			buf = malloc(len + 1);
 			fill(buf, len, atoi(tok[3]));
 			r = with_handle(&h);
 			if (!r) {
@@ -233,6 +327,31 @@ int main(void)
 				if (!persist) ext2fs_xattrs_close(&h);
 			}
 			finish_line("rm", r);
+		} else if (!strcmp(tok[0], "write") && nt == 3) {
+			drop_ph();
+			finish_line("write", do_write(strtoul(tok[1], NULL, 10), atoi(tok[2])));
+		} else if (!strcmp(tok[0], "trunc") && nt == 2) {
+			drop_ph();
+			finish_line("trunc", do_trunc(strtoul(tok[1], NULL, 10)));
+		} else if (!strcmp(tok[0], "iset") && nt == 3) {
+			size_t len = strtoul(tok[1], NULL, 10);
+			unsigned char *buf;
+			drop_ph();
+			if (!is_inline()) { finish_line("skip", 0); continue; }
+			buf = malloc(len + 1);
+			fill_file(buf, len, atoi(tok[2]));
+			r = ext2fs_inline_data_set(fs, ino, NULL, buf, len);
+			free(buf);
+			finish_line("iset", r);
+		} else if (!strcmp(tok[0], "iexp")) {
+			drop_ph();
+			finish_line("iexp", ext2fs_inline_data_expand(fs, ino));
+		} else if (!strcmp(tok[0], "punch")) {
+			drop_ph();
+			finish_line("punch", ext2fs_punch(fs, ino, NULL, NULL, 0, ~0ULL));
+		} else if (!strcmp(tok[0], "mkdirin") && nt == 2) {
+			drop_ph();
+			finish_line("mkdirin", do_mkdirin(atoi(tok[1])));
 		} else if (!strcmp(tok[0], "share")) {
 			drop_ph();		/* the peer's reference is made by "another process" */
 			r = do_share();
